@@ -1,6 +1,7 @@
 import Model.Proto
 import Model.Filter
 import Model.FilterCtl
+import Model.FilterPhraseSearch
 /-!
 Shared driver code for the streams `filter-threads` (C12, Driver/C12.lean) and `filter`
 (C11, Driver/C11.lean).  One job per input line:
@@ -113,7 +114,7 @@ def runJob (j : Job) : IO String := do
 
 /-- phrase mode: write the lower bound `<pfx>.must<k>` (the lines `Tiles` obliges file `k` to contain,
 in the layout of the real output) -/
-def runPhrase (union ctx arpa : Bool) (vocab model : Bytes) (pfx : String) : IO String := do
+def runPhrase (mutant union ctx arpa : Bool) (vocab model : Bytes) (pfx : String) : IO String := do
   let sents := readPhraseSentences vocab
   let vs : Item → Verdict := fun it =>
     let ws := words (if ctx then contextOf it.ngram else it.ngram)
@@ -139,6 +140,15 @@ def runPhrase (union ctx arpa : Bool) (vocab model : Bytes) (pfx : String) : IO 
         | some a => arpaFile a vg k
         | none => rawFile items vg k
       writeBytes s!"{pfx}.graph{k}" bytes
+    -- the lazy search itself (Vertex::LowerBound / Arc::LowerBound / Evaluate)
+    let vsr : Item → Verdict := fun it =>
+      let ws := words (if ctx then contextOf it.ngram else it.ngram)
+      if union then phraseSearchUnion mutant sents ws else phraseSearch mutant sents ws
+    for k in [0:nout] do
+      let bytes := match arpa? with
+        | some a => arpaFile a vsr k
+        | none => rawFile items vsr k
+      writeBytes s!"{pfx}.search{k}" bytes
     return s!"ok outputs={nout} items={items.length} itemsOk={itemsOk items} sentences={sents.length}"
 
 def parseJob (ws : List String) : IO (Option Job) := do
@@ -161,7 +171,7 @@ partial def mainLoop (h : IO.FS.Stream) : IO Unit := do
   | ["pjob", mode, ctx, fmt, vocab, model, pfx] =>
     let v ← readBytes vocab
     let m ← readBytes model
-    let r ← runPhrase (mode = "union") (ctx = "1") (fmt = "arpa") v m pfx
+    let r ← runPhrase ((← IO.getEnv "KV_PHRASE_MUTANT") == some "1") (mode = "union") (ctx = "1") (fmt = "arpa") v m pfx
     IO.println r
     (← IO.getStdout).flush
     return ← mainLoop h
